@@ -178,11 +178,16 @@ def check_pivot(m, f, rule):
             # the index may be chosen by a private helper: judge what that helper returns, in terms of its own count
             lf_fn, lf_pv, ckey, at = f, pv, '$1', c
             ii = f.get(strip_bitcasts(f, idx)) if isinstance(idx, str) else None
-            if ii is not None and ii.op == 'call' and ii.callee and not ii.is_intrinsic() and '$1' in ii.o:
+            # the count of the (sub)array being partitioned: the partition call's own count argument (the parameter, or a
+            # loop variable when the recursion on one side was turned into a loop)
+            cnt_here = c.o[1] if len(c.o) > 1 else '$1'
+            if ii is not None and ii.op == 'call' and ii.callee and not ii.is_intrinsic() and cnt_here in ii.o:
                 g = m.pfn(ii.callee)
                 if g is not None and not g.decl and len(g.returns()) == 1 and g.returns()[0].o:
-                    lf_fn, lf_pv, ckey, at = g, Prover(g), '$%d' % ii.o.index('$1'), None
+                    lf_fn, lf_pv, ckey, at = g, Prover(g), '$%d' % ii.o.index(cnt_here), None
                     idx = g.returns()[0].o[0]
+            elif cnt_here != '$1':
+                ckey = cnt_here
             leaves = phi_leaves(lf_fn, lf_pv.fc, idx)
             if len(leaves) < 2:
                 continue          # the partition's pivot is chosen among alternatives
@@ -190,7 +195,7 @@ def check_pivot(m, f, rule):
             bad, notes = [], []
             for leaf, lb, lf in leaves:
                 if const_int(leaf) == 0:
-                    notes.append('0' if pv.prove_at(('ult', '#0', '$1'), c) or pv.prove_at(('ne', '$1', '#0'), c) else 'NOT DECIDED: 0 (count > 0 not established)')
+                    notes.append('0' if pv.prove_at(('ult', '#0', cnt_here), c) or pv.prove_at(('ne', cnt_here, '#0'), c) else 'NOT DECIDED: 0 (count > 0 not established)')
                     continue
                 why = _pivot_below(lf_fn, lf_pv, leaf, at, ckey)
                 if why:
